@@ -110,7 +110,7 @@ func cn(c cid.Cid) string {
 	return c.String()
 }
 
-const rule = "state machine on 1-3 real Raft peers (hashicorp raft, BoltDB log, file snapshots in temp dirs, libp2p transport on loopback) with tiny snapshot threshold (2-5), snapshot interval (50-200 ms) and trailing logs (0-2): pin (well-formed pins of every type with all options, submitted at any live member so that followers redirect), unpin, restart(i), stop(i) ... start(i) while the others commit and snapshot (catch-up by log replay or by installing a snapshot over the state rebuilt from the peer's own older snapshot), offline read after a clean shutdown; model = acknowledged sequence and its prefix states; oracle after every step: every live member's pinset is a prefix state (time-free), the leader shows an acknowledged operation at once, a caught-up member equals the whole sequence, OfflineState after a clean shutdown equals the state at shutdown, every operation applied since a peer's start was handed to its tracker with equal content; non-trivial = an unpin or re-pin of a pinned CID and afterwards a restart, stop/start or enough operations for a snapshot; distinct by script"
+const rule = "state machine on 1-3 real Raft peers (hashicorp raft, BoltDB log, file snapshots in temp dirs, libp2p transport on loopback) with tiny snapshot threshold (2-5), snapshot interval (50-200 ms) and trailing logs (0-2): pin (well-formed pins of every type with all options, submitted at any live member so that followers redirect), unpin, an operation submitted at a follower while the leader refuses every redirected call (must not be acknowledged), restart(i), stop(i) ... start(i) while the others commit and snapshot (catch-up by log replay or by installing a snapshot over the state rebuilt from the peer's own older snapshot), offline read after a clean shutdown; model = acknowledged sequence and its prefix states; oracle after every step: every live member's pinset is a prefix state (time-free), the leader shows an acknowledged operation at once, a caught-up member equals the whole sequence, OfflineState after a clean shutdown equals the state at shutdown, every operation applied since a peer's start was handed to its tracker with equal content; non-trivial = an unpin or re-pin of a pinned CID and afterwards a restart, stop/start or enough operations for a snapshot; distinct by script"
 
 func waitCaughtUp(p *fakes.RaftPeer, want string, d time.Duration) (string, bool) {
 	deadline := time.Now().Add(d)
@@ -253,6 +253,65 @@ func TestRaftLog(t *testing.T) {
 			},
 			"unpin": func(t *rapid.T) {
 				submit(t, true, api.PinCid(gen.CidN(4).Draw(t, "cid")))
+			},
+			"refusedRedirect": func(t *rapid.T) {
+				// an operation submitted at a follower while the leader refuses
+				// every redirected call: it cannot have been committed, so it
+				// must not be acknowledged
+				l := live()
+				if len(l) < 2 {
+					t.Skip("needs a follower")
+				}
+				var leader, follower = -1, -1
+				for _, j := range l {
+					ld, err := peers[j].Cons.Leader(ctx)
+					if err != nil {
+						t.Skip("no leader")
+					}
+					if peers[j].H.ID() == ld {
+						leader = j
+					}
+				}
+				for _, j := range l {
+					if j != leader {
+						follower = j
+					}
+				}
+				if leader < 0 || follower < 0 {
+					t.Skip("no leader/follower pair")
+				}
+				p := api.PinCid(gen.CidN(4).Draw(t, "cid"))
+				p.Name = fmt.Sprintf("refused%d", len(script))
+				unpin := rapid.Bool().Draw(t, "unpin")
+				peers[leader].SetRefuse(1000)
+				var err error
+				if unpin {
+					err = peers[follower].Cons.LogUnpin(ctx, p)
+				} else {
+					err = peers[follower].Cons.LogPin(ctx, p)
+				}
+				refused := peers[leader].RefusedCount()
+				peers[leader].SetRefuse(0)
+				script = append(script, fmt.Sprintf("refused(unpin=%v)@%d(%s) leader=%d refusals=%d", unpin, follower, cn(p.Cid), leader, refused))
+				if refused == 0 {
+					// leadership moved in between: the call was not a redirect
+					if err == nil {
+						if _, had := m.cur[p.Cid.String()]; had {
+							rewrote = true
+						}
+						m.apply(op{unpin: unpin, pin: p, at: follower})
+						for j := range peers {
+							opsSince[j]++
+						}
+					} else {
+						leg.Inconclusive(fmt.Sprintf("operation returned an error: %v", err))
+						t.Skip("unacknowledged operation")
+					}
+				} else if err == nil {
+					fail("peer %d acknowledged an operation although all %d redirects to the leader (peer %d) were refused: it was never committed", follower, refused, leader)
+				}
+				classes["refused-redirect"] = true
+				prefixSafety("after a refused redirect")
 			},
 			"restart": func(t *rapid.T) {
 				l := live()
